@@ -54,7 +54,7 @@ func (r *reusableWorkflowRequired) UnmarshalYAML(n *yaml.Node) error {
 func (input *ReusableWorkflowMetadataInput) UnmarshalYAML(n *yaml.Node) error {
 	type metadata struct {
 		Required reusableWorkflowRequired `yaml:"required"`
-		Default  *string                  `yaml:"default"`
+		Default  yaml.Node                `yaml:"default"`
 		Type     string                   `yaml:"type"`
 	}
 
@@ -63,7 +63,9 @@ func (input *ReusableWorkflowMetadataInput) UnmarshalYAML(n *yaml.Node) error {
 		return err
 	}
 
-	input.Required = bool(md.Required) && md.Default == nil
+	// The input has a default value when "default" key exists even if the value is null. This is the
+	// same as LocalReusableWorkflowCache.WriteWorkflowCallEvent and 'events' rule
+	input.Required = bool(md.Required) && md.Default.IsZero()
 	switch md.Type {
 	case "boolean":
 		input.Type = BoolType{}
